@@ -163,9 +163,9 @@ Section Line.
     h_need_extra h && no_extra extra = false ->
     handle st (kw :: path0 :: modeS :: uidS :: gidS :: extra) =
       match h_cb h with
-      | CbGeneric => add_generic St do_call st path (N.lor m (h_mode h)) u g 0 0 extra
-      | CbDevice => add_device St do_call st path (N.lor m (h_mode h)) u g 0 extra
-      | CbFile => add_file St do_call st path (N.lor m (h_mode h)) u g 0 extra
+      | CbGeneric => add_generic St do_call st path (N.lor m (h_mode h)) u g 0 (h_flags h) extra
+      | CbDevice => add_device St do_call st path (N.lor m (h_mode h)) u g (h_flags h) extra
+      | CbFile => add_file St do_call st path (N.lor m (h_mode h)) u g (h_flags h) extra
       end.
   Proof.
     intros Hh Hc Hr Hm Hu Hg He. unfold handle_line. rewrite Hh, Hc.
@@ -360,7 +360,7 @@ Section Line.
       + repeat constructor; auto using zero_oct_no_nl, print_dec_no_nl; try kw_chars.
       + intro st. erewrite handle_hook; [|reflexivity|exact Hcanon|congruence|exact Hmode|exact Huid'|exact Hgid'|reflexivity].
         cbn [h_cb h_mode]. unfold add_device. cbn [dev_type streq list_N_eqb N.eqb Pos.eqb andb orb].
-        rewrite !parse_print_dec by (try apply major32_bound; apply minor32_bound; exact Hdev).
+        rewrite parse_print_major, parse_print_minor by exact Hdev.
         rewrite makedev_major_minor by exact Hdev.
         rewrite N.lor_0_r. rewrite F3. reflexivity.
     - (* blk *)
@@ -369,7 +369,7 @@ Section Line.
       + repeat constructor; auto using zero_oct_no_nl, print_dec_no_nl; try kw_chars.
       + intro st. erewrite handle_hook; [|reflexivity|exact Hcanon|congruence|exact Hmode|exact Huid'|exact Hgid'|reflexivity].
         cbn [h_cb h_mode]. unfold add_device. cbn [dev_type streq list_N_eqb N.eqb Pos.eqb andb orb].
-        rewrite !parse_print_dec by (try apply major32_bound; apply minor32_bound; exact Hdev).
+        rewrite parse_print_major, parse_print_minor by exact Hdev.
         rewrite makedev_major_minor by exact Hdev.
         rewrite N.lor_0_r. rewrite F3. reflexivity.
     - (* pipe *)
